@@ -116,6 +116,13 @@ Theorem C09_admin_route_set :
   filter needs_admin routes_111 = [("POST", "/api/v1/access"); ("DELETE", "/api/v1/access/:token")].
 Proof. vm_compute. reflexivity. Qed.
 
+(* the verdict depends on the request's own credential only - not on any other request in flight or made before *)
+Theorem C09_verdict_independent_of_other_requests : forall use_auth admin others st wrapped hdr,
+  forallb is_auth others = true ->
+  decide use_auth admin (run admin st others) wrapped hdr = decide use_auth admin st wrapped hdr.
+Proof. exact verdict_independent_of_other_requests. Qed.
+
+Print Assumptions C09_verdict_independent_of_other_requests.
 Print Assumptions C09_header_accepted_iff.
 Print Assumptions C09_parse_missing_iff.
 Print Assumptions C09_parse_tok_iff.
